@@ -394,10 +394,13 @@ class C16:
         good, detail = False, "no `if os.path.exists(<destination>)` block"
         for blk in ex_if:
             for n in ast.walk(blk):
+                test = getattr(n, "test", None)
+                if isinstance(test, ast.Name) and len(defs.get(test.id, [])) == 1 and isinstance(defs[test.id][0], (ast.BoolOp, ast.Compare, ast.UnaryOp)):
+                    test = defs[test.id][0]         # an explaining variable stands for its definition
                 if isinstance(n, ast.If) and n is not blk and any(isinstance(x, ast.Raise) and "CloudFileExistsError" in ast.unparse(x) for x in ast.walk(n)) \
-                        and any(isinstance(x, ast.Name) and x.id in (to_dir[0], has[0]) for x in ast.walk(n.test)):
+                        and any(isinstance(x, ast.Name) and x.id in (to_dir[0], has[0]) for x in ast.walk(test)):
                     try:
-                        got = predform.dnf(n.test)
+                        got = predform.dnf(test)
                         want = predform.dnf(predform.parse("not {t} or {t} != {f} or {h}".format(t=to_dir[0], f=from_dir[0], h=has[0])))
                     except predform.Undecided as e:
                         detail = "undecided: %s" % e
@@ -540,3 +543,8 @@ def run(ctx: Ctx, rep: Report, tier: str):
     section(rep, lambda: fs_events_trim_after_delivery(ctx, rep, "C16.P11"))
     rep.rule("C16.P12", "a case-only rename is a rename for the mock too: MockProvider.rename's no-op shortcut is exact path equality", 1)
     section(rep, lambda: mock_rename_noop_is_exact(ctx, rep, "C16.P12"))
+    from rules.decisions import decision_table, table_sites
+    rep.rule("C16.DT", "decision table (rules/decisions.json) of the mock and filesystem providers and the provider base class operations: for every function and every action shape (an impure call with the parameters it passes, a store to an "
+             "attribute or item, a delete, a returned constant, a yield, a raise) the set of states - over the function's guard atoms - in which the action is taken "
+             "equals the recorded one; compared as canonical decision diagrams, so any equivalent respelling of the guards is the same table", table_sites("C16"))
+    section(rep, lambda: decision_table(ctx, rep, "C16.DT", "C16"))
